@@ -38,30 +38,40 @@ def solve_one(job):
     name, smt2, timeout_ms, use_cvc5 = job
     t0 = time.time()
     res = {'name': name, 'backend': 'z3-%s' % z3.get_version_string(), 'verdict': 'unknown', 'model': None, 'reason': ''}
-    try:
-        ctx = z3.Context()
-        s = z3.Solver(ctx=ctx)
-        s.set('timeout', int(timeout_ms))
-        s.set('auto_config', False)
-        s.set('smt.mbqi', False)
-        s.from_string(smt2)
-        r = s.check()
-        if r == z3.unsat:
-            res['verdict'] = 'unsat'
-        elif r == z3.sat:
-            res['verdict'] = 'sat'
-            res['model'] = _model_to_dict(s.model())
-        else:
-            res['reason'] = s.reason_unknown()
-            # incomplete quantifier instantiation: z3 says unknown although it found a candidate model
-            if 'incomplete' in res['reason']:
-                try:
-                    res['model'] = _model_to_dict(s.model())
-                    res['candidate_model'] = True
-                except Exception:
-                    pass
-    except Exception as e:  # pragma: no cover
-        res['reason'] = 'z3 error: %r' % (e,)
+    # small portfolio: E-matching is sensitive to relevancy filtering (see DESIGN 3.4); stop at the first definite answer
+    configs = [{'smt.relevancy': 0}, {}, {'smt.relevancy': 0, 'smt.random_seed': 11}]
+    per = max(1000, int(timeout_ms * 0.6))
+    for ci, cfg in enumerate(configs):
+        try:
+            ctx = z3.Context()
+            s = z3.Solver(ctx=ctx)
+            s.set('timeout', int(per if ci == 0 else max(1000, timeout_ms * 0.2)))
+            s.set('auto_config', False)
+            s.set('smt.mbqi', False)
+            for k, v in cfg.items():
+                s.set(k, v)
+            s.from_string(smt2)
+            r = s.check()
+            if r == z3.unsat:
+                res['verdict'] = 'unsat'
+                res['config'] = cfg
+                break
+            elif r == z3.sat:
+                res['verdict'] = 'sat'
+                res['model'] = _model_to_dict(s.model())
+                break
+            else:
+                res['reason'] = s.reason_unknown()
+                # incomplete quantifier instantiation: z3 says unknown although it found a candidate model
+                if 'incomplete' in res['reason'] and res.get('model') is None:
+                    try:
+                        res['model'] = _model_to_dict(s.model())
+                        res['candidate_model'] = True
+                    except Exception:
+                        pass
+        except Exception as e:  # pragma: no cover
+            res['reason'] = 'z3 error: %r' % (e,)
+            break
     res['ms'] = int((time.time() - t0) * 1000)
     if res['verdict'] == 'unknown' and use_cvc5:
         t1 = time.time()
